@@ -92,6 +92,26 @@ def validate_witness(P, e, site):
                 if all(any(m in p_ for p_ in places) for m in w["mentions"]):
                     return None
         return "no early-exit guard mentioning %s in %s" % (w["mentions"], w["fn"])
+    if kind == "guard_before_publish":
+        # the validating guard must be evaluated before the value is published (cached / stored): a value that enters a
+        # cache first is handed to later callers by the cache-hit path without ever passing the guard
+        b = P.fn(w["fn"])
+        if b is None:
+            return "function %s is gone" % w["fn"]
+        order = {id(n): i for i, n in enumerate(ir.walk_nodes(b["body"]))}
+        guards = []
+        for n in ir.walk_nodes(b["body"]):
+            if n.get("k") == "if" and ir.diverges(n["then"]):
+                places = {ir.place_str(x) for x in ir.walk_nodes(n["c"]) if x.get("k") in ("field", "path", "mcall")}
+                if all(any(m in p_ for p_ in places) for m in w["mentions"]):
+                    guards.append(n)
+        if not guards:
+            return "no early-exit guard mentioning %s in %s" % (w["mentions"], w["fn"])
+        pubs = [n for n in ir.walk_nodes(b["body"]) if n.get("k") == "mcall" and n.get("name") in w["publish"] and any(t in (n.get("q") or "") for t in ("LimitedCache::", "HashMap::", "BTreeMap::"))]
+        if not pubs:
+            return "no publishing call (%s) in %s" % (w["publish"], w["fn"])
+        late = [n for n in pubs if order[id(n)] < min(order[id(g)] for g in guards)]
+        return None if not late else "the value is published by `%s` at %s before the guard on %s is evaluated: later cache hits skip the guard" % (late[0]["name"], ir.loc(late[0]), w["mentions"])
     if kind == "callers_are":
         cs = callers_of(P, site.fn)
         extra = sorted(c for c in cs if c not in set(w["callers"]) and c != site.fn)
